@@ -329,3 +329,47 @@ Proof.
   unfold validate_observation in *. cbn [ro_att ro_removes ro_updates ro_values].
   rewrite (Permutation.Permutation_length Prm). rewrite Hval. reflexivity.
 Qed.
+
+(* ================= C15 end to end: the mode aggregate is a value some correct node's data source returned ================= *)
+From DS Require Import ModeProofs StreamValueProofs.
+
+Section Round15.
+  Context (h : Z -> chandef -> list Z) (check : list Z -> option (gmap Z Z)) (codec_ok : chandef -> bool).
+  Context (cf : cfg) (seq : Z) (prev_bytes : list Z).
+  Local Notation tagged := (tagged check codec_ok cf seq prev_bytes).
+  Local Notation lsenders_ok := (lsenders_ok codec_ok cf seq prev_bytes).
+
+  Definition not_tsv (v : sval) : Prop := match v with STsv _ _ => False | _ => True end.
+
+  Theorem llo_mode_from_a_correct_data_source ss prev next sid v :
+    bok prev_bytes -> lsenders_ok ss -> 1 < seq ->
+    (forall i rms ups vals, In (LCorrect i rms ups vals) ss -> map_Forall (fun _ x => small (sval_marshal x)) (oi_vals i)) ->
+    outcome_step h cf seq prev (map fst (tagged ss)) = Ok next ->
+    o_aggs next !! (sid, 2) = Some v -> not_tsv v ->
+    (length (List.filter (fun p : option sval * bool => match fst p with Some _ => negb (snd p) | None => false end)
+                         (accepted_vals (tagged ss) sid)) <= c_f cf)%nat ->
+    exists i, (exists rms ups vals, In (LCorrect i rms ups vals) ss) /\ oi_vals i !! sid = Some v.
+  Proof.
+    intros Hb Hok Hseq Hsmall Hstep Hl Hnt Hf.
+    pose proof (step_aggregate h cf seq prev (tagged ss) next (sid, 2) v Hseq Hstep Hl) as Hav.
+    unfold agg_value, agg_fun in Hav. cbn [Z.eqb Pos.eqb] in Hav. rewrite <- accepted_vals_fst in Hav.
+    destruct (mode_agg (map fst (accepted_vals (tagged ss) sid)) (c_f cf)) as [[r|]| |] eqn:Em.
+    - assert (Hr : r = v).
+      { destruct r as [d|a b c|t i0].
+        - inversion Hav; reflexivity.
+        - inversion Hav; reflexivity.
+        - destruct (o_aggs prev !! (sid, 2)) as [[?|? ? ?|pt pi]|]; [inversion Hav; subst v; destruct Hnt| inversion Hav; subst v; destruct Hnt| |inversion Hav; subst v; destruct Hnt].
+          destruct (t <=? pt); inversion Hav; subst v; destruct Hnt. }
+      subst r. destruct (mode_honest_witness _ _ _ Hf Em) as (x & ser & Hx & Hser & Hun).
+      destruct (accepted_vals_in _ _ _ _ Hx) as (ob & Hob & Hv).
+      destruct (tagged_correct check codec_ok cf seq prev_bytes ss ob Hb Hok Hob) as (i & rms & ups & vals & Hs & Hsub & _).
+      pose proof (lookup_weaken _ _ _ _ Hv Hsub) as Hsrc.
+      destruct (Hok i rms ups vals Hs) as ((_ & _ & Hvwf) & _). destruct (Hvwf sid x Hsrc) as [_ [Hxok Hxd]].
+      pose proof (Hsmall i rms ups vals Hs sid x Hsrc) as Hxs.
+      rewrite <- Hser in Hun. rewrite (sval_roundtrip x Hxok (sval_small_of_small x Hxs) Hxd) in Hun. inversion Hun; subst x.
+      exists i. split; [eauto|exact Hsrc].
+    - discriminate.
+    - destruct (o_aggs prev !! (sid, 2)) as [[?|? ? ?|pt pi]|]; try discriminate. inversion Hav; subst v. destruct Hnt.
+    - discriminate.
+  Qed.
+End Round15.
